@@ -273,7 +273,7 @@ let parse_e2e (o : string) : e2e_op =
   let rest = String.sub o 1 (String.length o - 1) in
   match o.[0] with
   | 'c' | 'A' -> XConnect (nat_of_int (int_of_string rest))
-  | 'f' -> XFinish (n_of_int (int_of_string rest))
+  | 'f' | 'F' -> XFinish (n_of_int (int_of_string rest))
   | 'P' -> XPause
   | 'R' -> XResume
   | 'Q' -> XBurst (List.map (fun c -> c = 'R') (List.init (String.length rest) (String.get rest)))
@@ -300,6 +300,7 @@ let bld_step lz call_of (st, cid) (o : string) : (state * int) * string =
     let nev = List.length st.trace in
     let op = parse_e2e o in
     (match op with
+     | XFinish c when o.[0] = 'F' -> ()      (* F<cid>: close that client whether or not its service call has started (probes) *)
      | XFinish c -> if not (List.exists (fun wk -> List.exists (fun cn -> cn.c_id = c) wk.w_picked) st.ws)
          then failwith ("finish of a connection that is not in progress: " ^ o)
      | XKill _ | XKillConnect _ -> poisoned := (cid + 1) :: !poisoned
